@@ -1,5 +1,6 @@
 import CoreBGP.Model.Server
 import CoreBGP.Spec.Server
+import CoreBGP.Lemmas.Server
 /-!
 # C12 — protocol errors damp the peer; Cease and transport faults do not (function half)
 
@@ -11,6 +12,7 @@ armed ⇒ both FSM slots empty; no dial, inbound refused while it holds) are L2 
 -/
 namespace CoreBGP.Props.C12
 open CoreBGP CoreBGP.Model
+open CoreBGP.Lemmas.Server
 
 /-- the constants are the property's: 60 s minimum, 300 s maximum, 300 s amnesia -/
 theorem constants :
@@ -18,23 +20,89 @@ theorem constants :
     Gen.errorAmnesiaTime = 300 * Spec.sec ∧ Gen.NOTIF_CODE_CEASE = 6 := by
   decide
 
+-- (`hprev` is part of the statement but the equality holds without it: both sides double and cap
+-- whatever `prev` is; the hypothesis matters for `delay_bounds`)
+set_option linter.unusedVariables false in
 /-- one step of the code's arithmetic is the specified recurrence, whenever the previous delay is
 one the code can have produced (0 before the first error, else within [60 s, 300 s]) -/
 theorem step_eq (prev : Nat) (gap : Option Nat)
     (hprev : prev = 0 ∨ (60 * Spec.sec ≤ prev ∧ prev ≤ 300 * Spec.sec)) (hfirst : gap = none → prev = 0) :
     updateStartupDelay prev gap = Spec.nextDelay prev gap := by
-  sorry
+  cases gap with
+  | none =>
+    rw [hfirst rfl, usd_zero, nextDelay_none]
+  | some g =>
+    by_cases hg : 300000000000 ≤ g
+    · rw [usd_amnesia prev g hg, nextDelay_reset prev g (Or.inl hg)]
+    · by_cases hp : prev = 0
+      · rw [hp, usd_zero, nextDelay_reset 0 g (Or.inr rfl)]
+      · rw [usd_double prev (some g) (by omega) (fun g' h => by cases h; omega),
+          nextDelay_double prev g (by omega) hp]
+
+/-- the delays the code can hold: 0 before the first error, else within [60 s, 300 s] -/
+def Good (d : Nat) : Prop := d = 0 ∨ (60 * Spec.sec ≤ d ∧ d ≤ 300 * Spec.sec)
+
+/-- from such a delay, `updateStartupDelay` returns a value within [60 s, 300 s] -/
+theorem step_bounds (prev : Nat) (gap : Option Nat) (hprev : Good prev) :
+    60 * Spec.sec ≤ updateStartupDelay prev gap ∧ updateStartupDelay prev gap ≤ 300 * Spec.sec := by
+  rw [Good, sec60, sec300] at hprev
+  rw [sec60, sec300]
+  by_cases hp : prev = 0
+  · rw [hp, usd_zero]; omega
+  · by_cases hg : ∃ g, gap = some g ∧ 300000000000 ≤ g
+    · obtain ⟨g, rfl, hg⟩ := hg
+      rw [usd_amnesia prev g hg]; omega
+    · rw [usd_double prev gap (by omega) (fun g h => Nat.lt_of_not_le (fun hge => hg ⟨g, h, hge⟩))]
+      omega
+
+theorem delaysAfter_bounds (gaps : List Nat) : ∀ (d0 : Nat) (first : Bool), Good d0 →
+    ∀ d ∈ delaysAfter d0 first gaps, 60 * Spec.sec ≤ d ∧ d ≤ 300 * Spec.sec := by
+  induction gaps with
+  | nil => intro d0 first _ d hd; simp [delaysAfter] at hd
+  | cons g gs ih =>
+    intro d0 first h0 d hd
+    have hb := step_bounds d0 (if first then none else some g) h0
+    simp only [delaysAfter, List.mem_cons] at hd
+    rcases hd with rfl | hd
+    · exact hb
+    · exact ih _ false (Or.inr hb) d hd
 
 /-- the delay after every error of every history is within [60 s, 300 s] -/
-theorem delay_bounds (gaps : List Nat) : ∀ d ∈ backoff gaps, 60 * Spec.sec ≤ d ∧ d ≤ 300 * Spec.sec := by
-  sorry
+theorem delay_bounds (gaps : List Nat) : ∀ d ∈ backoff gaps, 60 * Spec.sec ≤ d ∧ d ≤ 300 * Spec.sec :=
+  delaysAfter_bounds gaps 0 true (Or.inl rfl)
 
 /-- first error ⇒ 60 s -/
 theorem first_is_min (g : Nat) (gs : List Nat) : (backoff (g :: gs)).head? = some (60 * Spec.sec) := by
-  sorry
+  simp [backoff, delaysAfter, updateStartupDelay, Gen.errorDelayMinTime, Spec.sec]
 
-/-- the whole delay sequence is the specified recurrence (60 s at first; after a gap < 300 s
-min(2·d, 300 s); after a gap ≥ 300 s back to 60 s), for every history -/
+/-- the specified delay sequence (the `let rec go` of `backoff_spec`, as a top-level definition) -/
+def specDelays (prev : Nat) (first : Bool) : List Nat → List Nat
+  | [] => []
+  | g :: rest =>
+    let d := Spec.nextDelay prev (if first then none else some g)
+    d :: specDelays d false rest
+
+theorem delaysAfter_spec (gaps : List Nat) : ∀ (d0 : Nat) (first : Bool), Good d0 →
+    (first = true → d0 = 0) → delaysAfter d0 first gaps = specDelays d0 first gaps := by
+  induction gaps with
+  | nil => intro d0 first _ _; rfl
+  | cons g gs ih =>
+    intro d0 first h0 hf
+    have hstep : updateStartupDelay d0 (if first then none else some g) =
+        Spec.nextDelay d0 (if first then none else some g) := by
+      apply step_eq d0 _ h0
+      cases first with
+      | true => intro _; exact hf rfl
+      | false => intro h; simp at h
+    have hb := step_bounds d0 (if first then none else some g) h0
+    simp only [delaysAfter, specDelays]
+    rw [← hstep]
+    congr 1
+    exact ih _ false (Or.inr hb) (fun h => Bool.noConfusion h)
+
+/- original form of the statement (the local `let rec go` is `specDelays` above, restated as a
+top-level definition with the same equations so that the proof can refer to it):
+
 theorem backoff_spec (gaps : List Nat) :
     backoff gaps =
       (let rec go (prev : Nat) (first : Bool) : List Nat → List Nat
@@ -42,16 +110,31 @@ theorem backoff_spec (gaps : List Nat) :
         | g :: rest =>
           let d := Spec.nextDelay prev (if first then none else some g)
           d :: go d false rest
-       go 0 true gaps) := by
-  sorry
+       go 0 true gaps)
+-/
+
+/-- the whole delay sequence is the specified recurrence (60 s at first; after a gap < 300 s
+min(2·d, 300 s); after a gap ≥ 300 s back to 60 s), for every history -/
+theorem backoff_spec (gaps : List Nat) : backoff gaps = specDelays 0 true gaps :=
+  delaysAfter_spec gaps 0 true (Or.inl rfl) (fun _ => rfl)
 
 /-- an error changes the damping state iff it carries a sent or received NOTIFICATION whose code
 is not Cease; Cease, I/O errors and a local stop never start or extend a hold-down -/
 theorem classes (e : FsmErr) :
     errDamps e = Spec.damps (match e with | .notif c _ => some c.toNat | .other => none) := by
-  sorry
+  cases e with
+  | other => rfl
+  | notif c out =>
+    simp only [errDamps, dampPeer, Spec.damps, Gen.NOTIF_CODE_CEASE]
+    by_cases h : c = 6
+    · subst h; decide
+    · have h' : c.toNat ≠ 6 := fun hn => h (UInt8.toNat_inj.1 (by simpa using hn))
+      simp [h, h']
 
 example : backoff [0, 10 * Spec.sec, 10 * Spec.sec, 10 * Spec.sec, 400 * Spec.sec]
+    = [60 * Spec.sec, 120 * Spec.sec, 240 * Spec.sec, 300 * Spec.sec, 60 * Spec.sec] := by decide
+
+example : specDelays 0 true [0, 10 * Spec.sec, 10 * Spec.sec, 10 * Spec.sec, 400 * Spec.sec]
     = [60 * Spec.sec, 120 * Spec.sec, 240 * Spec.sec, 300 * Spec.sec, 60 * Spec.sec] := by decide
 
 end CoreBGP.Props.C12
